@@ -202,6 +202,12 @@ class Application(object):
             self.add(entry)
 
         all_mws = _get_all_middlewares(self.routes)
+        # application-level middlewares wrap the application even when it
+        # has no routes yet (they are first in every bound route's list,
+        # so this changes nothing once there is a route)
+        for mw in self.middlewares:
+            if mw not in all_mws:
+                all_mws.append(mw)
         for mw in reversed(all_mws):
             self._dispatch_wsgi = _safe_wrap_wsgi('middleware', mw, self._dispatch_wsgi)
         return
